@@ -1,5 +1,5 @@
 //! run the repo's search algorithms on a world under the hook context.
-use crate::hooks::{with_ctx, Caught, Ctx};
+use crate::hooks::{with_ctx, Budget, Caught, Ctx};
 use crate::oracle::route::Od;
 use crate::rng::Rng;
 use routee_compass_core::algorithm::search::direction::Direction;
@@ -123,9 +123,16 @@ pub fn gen_kterm(rng: &mut Rng, k: usize) -> KTerm {
 
 pub type SearchOut = Result<Result<SearchAlgorithmResult, SearchError>, Caught>;
 
-/// logical step budget for one call: generous multiple of the worst legitimate count
-pub fn step_budget(nv: usize, ne: usize, k: usize) -> u64 {
-    (64 * (nv + ne) as u64 * (k.max(1) as u64) * (k.max(1) as u64 + 2)) + 10_000
+/// logical budgets for one call: generous multiples of the worst legitimate counts.
+/// a correct k-shortest-path outer loop turns at most k times (Yen) or once per intersection vertex
+/// (single-via); a correct Yen evaluates at most one spur per route position per accepted route.
+pub fn step_budget(nv: usize, ne: usize, k: usize) -> Budget {
+    let k = k.max(1) as u64;
+    Budget {
+        steps: 64 * (nv + ne) as u64 * k * (k + 2) + 10_000,
+        ksp_outer: 4 * (nv as u64 + 2 * k) + 64,
+        ksp_inner: 8 * (k + 1) * (nv as u64 + 1) + 256,
+    }
 }
 
 pub fn run_search(
@@ -134,7 +141,7 @@ pub fn run_search(
     od: Od,
     reverse: bool,
     query: &Value,
-    budget: u64,
+    budget: Budget,
     record: bool,
 ) -> (SearchOut, Ctx) {
     let sa = alg.build();
